@@ -9,6 +9,8 @@
 (*   "fit"    one call of func_fit on a small rational problem -> Solve (normal equations)  *)
 (*   "tseval" a trace set with rational coefficients / limits / jump evaluated by xy() /    *)
 (*            traceset2xy() at given positions and on its default grid                      *)
+(*            (total: a default grid of ANY shape gets a verdict - "nx", "gridlast", ... -   *)
+(*            before a value on it is looked up)                                            *)
 (*   "grid"   the default grid of any trace set (FITS fixtures included)                    *)
 (*   "limits" xmin / xmax / default grid of a trace set fitted to positions, with the xmin /  *)
 (*            xmax keywords absent, zero (0, 0.0, -0.0), negative or positive                 *)
@@ -63,16 +65,22 @@ GridWhy(g, xmin, xmax, nTrace) ==
   ELSE IF g.last # DefaultGrid(xmin, xmax)[GridLen(xmin, xmax)] THEN "gridlast"
   ELSE IF ~g.unit THEN "gridstep"
   ELSE ""
+(* The verdict is TOTAL: whatever shape the code's default grid has, the record gets a verdict.  The grid's shape *)
+(* (rows, nx, first, last, unit steps) is judged BEFORE any value on it is looked up, and the observed grid      *)
+(* indices r.gi are only used as indices into the specification's grid when they lie inside it ("gridindex").    *)
 TsEvalWhy(r) ==
   LET t == TsOf(r)
       e == TsEval(t, r.coeff, r.xp, JumpOf(r))
       gw == GridWhy(r.grid, r.xmin, r.xmax, Len(r.coeff))
       g == DefaultGrid(r.xmin, r.xmax)
       eg == TsEval(t, r.coeff, [k \in 1..Len(r.coeff) |-> [a \in 1..Len(r.gi) |-> g[r.gi[a]]]], JumpOf(r))
-  IN IF \E k \in 1..Len(r.coeff) : ~(AllProper(e[k]) /\ AllProper(eg[k])) THEN "toobig"
+  IN IF \E k \in 1..Len(r.coeff) : ~AllProper(e[k]) THEN "toobig"
      ELSE IF Len(r.vals) # Len(r.coeff) THEN "rows"
      ELSE IF \E k \in 1..Len(r.coeff) : ~AllClose(r.vals[k], e[k], r.tol) THEN "value"
      ELSE IF gw # "" THEN gw
+     ELSE IF \E a \in 1..Len(r.gi) : r.gi[a] \notin 1..Len(g) THEN "gridindex"
+     ELSE IF Len(r.gvals) # Len(r.coeff) THEN "gridrows"
+     ELSE IF \E k \in 1..Len(r.coeff) : ~AllProper(eg[k]) THEN "toobig"
      ELSE IF \E k \in 1..Len(r.coeff) : ~AllClose(r.gvals[k], eg[k], r.tol) THEN "gridvalue"
      ELSE ""
 
